@@ -8,6 +8,15 @@ impl SrtlaConnection {
     /// Register a packet as in-flight. O(1) insert.
     #[inline]
     pub fn register_packet(&mut self, seq: i32, send_time_ms: u64) {
+        // A packet (re)sent at or below the cumulative-ACK mark (a late SRT
+        // retransmission after the ACK already passed its number) would never
+        // be retired by a later cumulative ACK: `handle_srt_ack` skips ACKs at
+        // or below the mark and its fast path only removes `(mark, ack]`. Pull
+        // the mark back below it so the next ACK at or beyond it retires it,
+        // instead of leaking one in-flight slot until the link resets.
+        if seq <= self.highest_acked_seq {
+            self.highest_acked_seq = seq.saturating_sub(1);
+        }
         self.packet_log.insert(seq, send_time_ms);
         self.in_flight_packets = self.packet_log.len() as i32;
     }
